@@ -44,7 +44,7 @@ Definition run_c09 (w : wire) : wire :=
            | _, _, _, _ => [4]
            end)
   | op :: den :: w' =>
-      if (op =? 3) || (op =? 4) then
+      if (op =? 3) || (op =? 4) then   (* 3: the code as it is, 4: the variant keeping the minimum's weights *)
       run_dec (do den' <- getZ; do np <- getN; do ps <- getMany np (getV den');
                do nv <- getN; do vs <- getMany nv (getV den'); do ms <- getMeshes vs;
                do ni <- getN; do ifs <- getMany ni getIds;
@@ -52,7 +52,7 @@ Definition run_c09 (w : wire) : wire :=
                ret (ps, map (fun '(s, bs) => (inject_Z s, map (fun i => (i, pick ms (nth i ifs []))) bs)) ds)) w'
         (fun '(ps, g) =>
            0 :: flat_map (fun p =>
-           let st := dist_point_geom_gen Qops (op =? 3) p g zeroV in
+           let st := dist_point_geom_gen Qops (op =? 4) p g zeroV in
            match gs_err st, gs_d st, gs_near st, geom_triangle g st with
            | None, Some d, Some (iid, mi, ti), Some t =>
                [zn iid; zn (get3 (snd t) 0); zn (get3 (snd t) 1); zn (get3 (snd t) 2)] ++ outV (gs_al st) ++ outQ d
@@ -60,6 +60,19 @@ Definition run_c09 (w : wire) : wire :=
            | Some c, _, _, _ => [-100 - zn c]
            | _, _, _, _ => [-104]
            end) ps)
+      else if (op =? 6) || (op =? 7) then   (* soup-level geometry, one point; 6: the code as it is, 7: keeping the minimum's weights *)
+      run_dec (do p <- getV den; do nv <- getN; do vs <- getMany nv (getV den); do ms <- getMeshes vs;
+               do ni <- getN; do ifs <- getMany ni getIds;
+               do nd <- getN; do ds <- getMany nd (do s <- getZ; do bs <- getIds; ret (s, bs));
+               ret (p, map (fun '(s, bs) => (inject_Z s, map (fun i => (i, pick ms (nth i ifs []))) bs)) ds)) w'
+        (fun '(p, g) =>
+           let st := dist_point_geom_gen Qops (op =? 7) p g zeroV in
+           match gs_err st, gs_d st, gs_near st, geom_triangle g st with
+           | None, Some d, Some (iid, mi, ti), Some t =>
+               [0; zn iid; zn (get3 (snd t) 0); zn (get3 (snd t) 1); zn (get3 (snd t) 2)] ++ outV (gs_al st) ++ outQ d
+           | Some c, _, _, _ => [zn c]
+           | _, _, _, _ => [4]
+           end)
       else if op =? 5 then
       run_dec (do n <- getN; do ls <- getNs n; do ws <- getZs n; ret (ls, map inject_Z ws)) (den :: w')
         (fun '(ls, ws) =>
